@@ -47,4 +47,17 @@ theorem C19_gen_parseAccept (h : Bytes) :
         · simp [hx, bind, Except.bind, pure, Except.pure, GoRt.elemAt]
         · simp [hx, bind, Except.bind, pure, Except.pure, GoRt.elemAt]
 
+/-- `Context.AcceptedTypes` is `parseAccept` of the request's `Accept` header (what `Header.Get("Accept")` answers): it
+    never panics and keeps nothing in the context -/
+theorem C19_gen_acceptedTypes {γ : Type} (c : Gen.Ctx γ) (hdr : Option Nat → Bytes → List Bytes)
+    (hget : Option Nat → Bytes → Bytes) (meth : Option Nat → Bytes) :
+    Gen.Ctx.AcceptedTypes c hdr hget meth = Gen.parseAccept (hget c.req [0x41, 0x63, 0x63, 0x65, 0x70, 0x74]) ∧
+    ∃ l, Gen.Ctx.AcceptedTypes c hdr hget meth = .ok l := by
+  have h : Gen.Ctx.AcceptedTypes c hdr hget meth = Gen.parseAccept (hget c.req [0x41, 0x63, 0x63, 0x65, 0x70, 0x74]) := by
+    unfold Gen.Ctx.AcceptedTypes
+    simp only [bind_pure]
+  exact ⟨h, _, by rw [h, C19_gen_parseAccept]⟩
+
+#guard ([0x41, 0x63, 0x63, 0x65, 0x70, 0x74] : Bytes) = Bytes.ofString "Accept"
+
 end Rux
